@@ -115,7 +115,7 @@ Lemma Ext_refl h ri : Ext h ri ri.  Proof. exists []. rewrite app_nil_r. auto. Q
 Lemma step_sim ri h hi root rooti m h2 : Sim ri h hi -> rv ri root = Some rooti -> step_mut root h m = Some h2 ->
   exists ri2 hi2, step_mut rooti hi m = Some hi2 /\ Sim ri2 h2 hi2 /\ Ext h ri ri2 /\ rv ri2 root = Some rooti /\ length h <= length h2.
 Proof.
-  intros HS Hr E. destruct m as [p e|p k s|p k]; cbn [step_mut] in *.
+  intros HS Hr E. destruct m as [p e|p k s|p k|p md']; cbn [step_mut] in *.
   - (* v.value = e *)
     destruct (eval h root e) as [x|] eqn:Ev; [|discriminate].
     destruct (resolve (S (length p)) h root p) as [[l| | |]|] eqn:R; try discriminate.
@@ -186,6 +186,13 @@ Proof.
     eexists ri, _. split; [reflexivity|]. split.
     + apply sim_update; [exact HS|exact Ei|]. cbn [ro]. now rewrite (rattrs_kremove _ k _ _ Er).
     + split; [apply Ext_refl|]. split; [exact Hr|]. rewrite set_nth_length. lia.
+  - (* the metadata of a Variable *)
+    destruct (resolve (S (length p)) h root p) as [[l| | |]|] eqn:R; try discriminate.
+    destruct (nth_error h l) as [[|t pl md]|] eqn:Hl; try discriminate. inversion E; subst h2; clear E.
+    destruct (resolve_sim _ _ _ HS _ _ _ _ _ Hr R) as (u' & R' & Hu). rewrite R'. cbn [rv] in Hu.
+    destruct (index_of l ri) as [i|] eqn:Ei; [|discriminate]. inversion Hu; subst u'.
+    destruct (sim_cell _ _ _ _ _ HS Ei) as (o0 & o & A & B & C). rewrite Hl in A. inversion A; subst o0. inversion B; subst o. rewrite C.
+    exists ri, (set_nth i (OVar t pl md') hi). split; [reflexivity|]. split; [now apply sim_update|]. split; [apply Ext_refl|]. split; [exact Hr|]. rewrite set_nth_length. lia.
 Qed.
 
 Lemma Ext_trans h h2 a b c : length h <= length h2 -> Ext h a b -> Ext h2 b c -> Ext h a c.
